@@ -187,13 +187,15 @@ theorem C19_dry_reads_accounted :
 set_option maxRecDepth 8192 in
 /-- … and the non-call effects that depend on a DryRun test (assignments, inc/dec, break/continue/goto, send, go)
     are only: the result bookkeeping after the driver call (RowsAffected, Dest, the `rows` result and its error,
-    RETURNING scan mode, back-filling of the inserted key incl. its loops) -/
+    RETURNING scan mode, back-filling of the inserted key incl. its loops and — with fix F26-C03 — the look-up `v, ok` of
+    the key a caller's map already carries) -/
 theorem C19_dry_effects_scope :
     ∀ e ∈ dryEffects,
       e ∈ [("Create", "assign", "mode"), ("Create", "assign", "db.RowsAffected"), ("Create", "assign", "pkField"),
            ("Create", "assign", "pkFieldName"), ("Create", "assign", "values[pkFieldName]"),
            ("Create", "assign", "(*values)[pkFieldName]"), ("Create", "assign", "mapValues"),
            ("Create", "assign", "insertID"), ("Create", "assign", "mapValue[pkFieldName]"),
+           ("Create", "assign", "v"), ("Create", "assign", "ok"),
            ("Create", "incdec", "i"), ("Create", "branch", "break"),
            ("Delete", "assign", "db.RowsAffected"), ("RawExec", "assign", "db.RowsAffected"),
            ("RowQuery", "assign", "db.Statement.Dest"), ("RowQuery", "assign", "db.Error"),
